@@ -14,12 +14,20 @@ class ReplayDivergence(Exception):
 
 
 class Chooser:
-    __slots__ = ("prefix", "trace", "expect")
+    __slots__ = ("prefix", "trace", "expect", "defaults", "dev")
 
-    def __init__(self, prefix=(), expect=None):
+    def __init__(self, prefix=(), expect=None, defaults=()):
         self.prefix = tuple(prefix)
         self.trace = []  # (n, label, chosen)
         self.expect = expect  # recorded (n, label) of the parent run for the replayed prefix
+        self.dev = 0
+        self.defaults = tuple(defaults)  # ((label prefix, alternative), ...): the default answer of a harness variant
+
+    def default(self, n, label):
+        for pre, alt in self.defaults:
+            if label.startswith(pre):
+                return min(alt, n - 1)
+        return 0
 
     def choose(self, n, label=""):
         i = len(self.trace)
@@ -30,7 +38,7 @@ class Chooser:
             if self.expect is not None and i < len(self.expect) and self.expect[i] != (n, label):
                 raise ReplayDivergence(f"choice {i}: recorded {self.expect[i]}, now {(n, label)}")
         else:
-            c = 0
+            c = self.default(n, label) if self.defaults else 0
         self.trace.append((n, label, c))
         return c
 
@@ -51,20 +59,20 @@ class Stats:
         self.cap_hit = False
 
 
-def explore(body, k, on_exec, max_exec=None):
+def explore(body, k, on_exec, max_exec=None, defaults=()):
     """runs body(ch) for every choice vector with <= k deviations; on_exec(ch, result) is the oracle.
     returns Stats (nodes = choice points visited, edges = alternatives expanded)"""
     st = Stats()
-    stack = [((), None)]
+    stack = [((), None, 0)]
     while stack:
-        prefix, expect = stack.pop()
-        ch = Chooser(prefix, expect)
+        prefix, expect, dev = stack.pop()
+        ch = Chooser(prefix, expect, defaults)
+        ch.dev = dev
         res = body(ch)
         st.executions += 1
         on_exec(ch, res)
         tr = ch.trace
         st.max_points = max(st.max_points, len(tr))
-        dev = sum(1 for c in prefix if c)
         st.max_dev = max(st.max_dev, dev)
         st.nodes += len(tr) - len(prefix) + (1 if not prefix else 0)
         if dev + 1 > k:
@@ -72,16 +80,18 @@ def explore(body, k, on_exec, max_exec=None):
         rec = tuple((t[0], t[1]) for t in tr)
         base = tuple(t[2] for t in tr)
         for i in range(len(prefix), len(tr)):
-            n = tr[i][0]
-            for alt in range(1, n):
+            n, _, c0 = tr[i]
+            for alt in range(n):
+                if alt == c0:
+                    continue
                 st.edges += 1
-                stack.append((base[:i] + (alt,), rec[:i] + (rec[i],)))
+                stack.append((base[:i] + (alt,), rec[: i + 1], dev + 1))
         if max_exec is not None and st.executions >= max_exec:
             st.cap_hit = bool(stack)
             break
     return st
 
 
-def replay(body, choices):
-    ch = Chooser(tuple(choices))
+def replay(body, choices, defaults=()):
+    ch = Chooser(tuple(choices), None, defaults)
     return ch, body(ch)
